@@ -70,7 +70,7 @@ finding("P45", ["C10"], "fixed", "gen with --prepend leaks the prepended imports
 
 # ------------------------------------------------------------------ open
 finding("P9", ["C12"], "open", "sync leaves function and argparse targets that differ from the truth untouched ('unchanged'); Class.method targets get a new top-level def appended on every run; a missing function file raises TypeError (repair would break 4 pinned test_conformance tests)")
-finding("P12", ["C01"], "open", "string default '' is emitted as 'Defaults to' and lost; string defaults containing '.' are truncated")
+finding("P12", ["C01", "C08"], "open", "string default '' is emitted as 'Defaults to' and lost; string defaults containing '.' are truncated")
 finding("P13", ["C02", "C03", "C04"], "open", "argparse: a required parameter without default re-parses with the zero value of its type; single-member Literal loses choices and comes back str; bool without default comes back Optional[bool]; types outside scalar/Optional/Literal/List fall back to str")
 finding("P14", ["C03"], "open", "`a: int` without default -> function hop (=None) -> class/pydantic hop gives Optional[int]")
 finding("P15", ["C06"], "open", "Literal pattern 'x|yy' is unanchored: also accepts superstrings such as 'xx' and 'axb'")
@@ -102,6 +102,8 @@ finding("P25", ["C02", "C08"], "open", "numpydoc docstrings embedded in indented
 finding("P41", ["C02", "C08"], "open", "google docstrings embedded in indented code: the return entry is not recognised (presence / type / description of the return entry are lost or merged)")
 finding("P42", ["C02", "C08", "C05"], "open", "docstring emit at indent_level>0 inserts a blank line after the first line when it is followed by a single newline: with an empty header `Args:` is separated from its entries and google descriptions are lost (2 sqlalchemy emit tests pin the blank line)")
 finding("P43", ["C02"], "open", "code-quoted default in a signature format: class/function emit it as the string '```(np.zeros(9))```' and the parser then drops the parameter's type; the un-back-ticked form '(np.zeros(9))' loses its parentheses (class) or raises ValueError (function). Excluded from C02's generator by construction (counted), exercised by C08/C14")
+finding("P46", ["C08"], "open", "sqlalchemy declarative class: the header doc acquires more trailing blank/indented lines on every emit->parse round")
+finding("P47", ["C08"], "open", "description containing a type-hint trigger word or a 'default(s) to/is' fragment: the prose-derived type/default competes with the declared one, the default is re-typed (0 -> '0') and a terminal full stop appears only on the following round")
 finding("P26", ["C07"], "open", "doctrans drops comments inside a rewritten multi-line def header")
 finding("P27", ["C07"], "open", "doctrans turns a one-line `def f(a=1): return a` into invalid Python")
 finding("P28", ["C07"], "open", "doctrans does not recognise a raw docstring r\"\"\"...\"\"\": a second string is inserted")
@@ -159,6 +161,17 @@ W.append(("P45", "C10", {"inputs": {"g": _G, "leak": _L}, "scripts": [{"name": "
 W.append(("P1", "C11", {"fn": "emit_doc", "arg": "  \nfoo"}))
 W.append(("P1", "C11", {"fn": "emit_orig", "arg": "\n   \nfoo\n"}))
 W.append(("P1", "C11", {"fn": "emit_ir", "arg": {"ir": I([["a", {"typ": "int", "doc": "x"}]], doc=" \nbar"), "style": "google", "indent": 2, "kind": "function"}}))
+
+# ---- C08 witnesses (formats = the formats the fixpoint is checked in)
+def I8(params, returns=None, doc="Some summary.", **kw):
+    return I(params, returns, doc, feats=[], **kw)
+
+
+W.append(("P21", "C08", I8([A5], RET, formats=["doc_google"])))
+W.append(("P29", "C08", I8([["a", {"typ": "List[str]", "doc": "the a"}]], formats=["sqlalchemy_table"])))
+W.append(("P46", "C08", I8([A], formats=["sqlalchemy"])))
+W.append(("P47", "C08", I8([["a", {"typ": "int", "doc": "alpha. path the", "default": 0}]], formats=["doc_google"])))
+W.append(("P47", "C08", I8([["a", {"typ": "int", "doc": "mode this defaults to 5 limit", "default": 0}]], formats=["doc_rest"])))
 
 
 def main():
